@@ -602,6 +602,82 @@ pub fn base_from_read() {
 }
 
 // ---------------------------------------------------------------------------------------------
+// from_buf_reader: the bytes already sitting in the BufReader come first, then the inner source
+// continues; nothing is lost or duplicated at the seam (real std BufReader, small capacity).
+
+struct Inner {
+    data: [u8; 6],
+    len: usize,
+    pos: usize,
+}
+
+impl Read for Inner {
+    fn read(&mut self, out: &mut [u8]) -> io::Result<usize> {
+        let rest = self.len - self.pos;
+        if rest == 0 || out.is_empty() {
+            return Ok(0);
+        }
+        let k: usize = kani::any();
+        kani::assume(k >= 1 && k <= rest && k <= out.len());
+        let mut i = 0;
+        while i < k {
+            out[i] = self.data[self.pos + i];
+            i += 1;
+        }
+        self.pos += k;
+        Ok(k)
+    }
+}
+
+#[kani::proof]
+pub fn base_from_buf_reader() {
+    use std::io::BufRead;
+    let data: [u8; 6] = kani::any();
+    let len: usize = kani::any();
+    kani::assume(len <= 4);
+    let mut br = std::io::BufReader::with_capacity(2, Inner { data, len, pos: 0 });
+    // some bytes are pulled into the BufReader and some of those are consumed through it before
+    // the DeferredReader takes over
+    let prefill: bool = kani::any();
+    let mut consumed = 0;
+    if prefill {
+        let got = br.fill_buf().unwrap().len();
+        let j: usize = kani::any();
+        kani::assume(j <= got);
+        br.consume(j);
+        consumed = j;
+    }
+    let buffered = br.buffer().len();
+    let mut r = DeferredReader::from_buf_reader(br);
+    assert!(r.position() == 0 && r.buf_len() == 0 && !r.is_complete());
+    r.set_chunk_size(4);
+    // two refills (one read each): first the bytes the BufReader still held, then the inner source
+    let mut rounds = 0;
+    while rounds < 2 && r.request_more() {
+        rounds += 1;
+        // at every point the window is a prefix of the not yet consumed stream
+        let w = r.buf();
+        assert!(w.len() <= len - consumed, "bytes invented or duplicated at the BufReader seam");
+        let i: usize = kani::any();
+        kani::assume(i < w.len());
+        assert!(w[i] == data[consumed + i], "byte lost, duplicated or reordered at the BufReader seam");
+        // a refill falls short only at the end of the stream
+        assert!(!w.is_empty() || r.is_complete());
+    }
+    if rounds >= 1 && buffered > 0 {
+        // the first refill delivers (some of) the bytes that were sitting in the BufReader
+        assert!(r.buf_len() >= 1);
+    }
+    if r.is_complete() {
+        assert!(r.buf_len() == len - consumed, "bytes lost at the end");
+        assert!(r.io_error().is_none());
+    }
+    kani::cover!(prefill && buffered > 0 && buffered < len - consumed, "buffered bytes and inner continuation both used");
+    kani::cover!(prefill && buffered == 0, "BufReader drained before the hand-over");
+    forget(r);
+}
+
+// ---------------------------------------------------------------------------------------------
 // reachability twin: must FAIL (vacuity guard for the whole group)
 
 #[kani::proof]
